@@ -14,6 +14,11 @@
    arrivals interleaved with task steps, done-callbacks, pool starts / finishes; an event that is
    not enabled is a no-op), for ANY registry, any set of raising user functions.
 
+   Open finding (F31): a function that asks for the server by ANNOTATION only is not given it when
+   typing.get_type_hints fails on the function (another annotation cannot be resolved, or the
+   callable is a functools.partial / an instance with __call__): C14_refuted_unresolvable_hints;
+   "injected exactly when asked" is proved under the executable guard sig_ok, and "injected iff named
+   `ls` or (hints computable and the hint is the server's class)" for every signature.
    Open finding (F30): when the BUILT-IN raises (didChange for a document that is not open, a
    workspace built-in before initialize, executeCommand for an unknown or synchronously raising
    command) the user's feature of that method is skipped.  The literal clause "every registered
@@ -42,6 +47,21 @@ Definition shapes_statement : Prop :=
      exists e, aget (a_name a) (reg_table (a_kind a) (registry_of (l1 ++ a :: l2))) = Some e /\
                e_fid e = f_id (a_fn a) /\ e_inject e = asks_server (f_params (a_fn a)) /\
                (exec_site e = Pool <-> a_thr a <> TNone) /\ (exec_site e = LoopTask <-> f_async (a_fn a) = true)) /\
+  (* EVERY signature (Model.Dispatch.gsig: first parameter x whether typing.get_type_hints succeeds on
+     the callable - def, async def, partial, callable object, bound method, lambda; any further
+     parameters and annotations): the code's decision is `ls` by name, or hints computable and the
+     first parameter's hint the server's class; it never injects unasked; it injects exactly when
+     asked inside sig_ok; and the registered callable of such a function, anywhere in a case, binds
+     the server iff that decision says so *)
+  (forall g, has_ls_param_or_annotation (see g) = has_ls_g g /\
+             has_ls_g g = first_is_ls (g_first g) || (g_hints g && first_annot_server (g_first g)) /\
+             (has_ls_g g = true -> asks_server (g_first g) = true) /\
+             (sig_ok g = true -> has_ls_g g = asks_server (g_first g))) /\
+  (forall l1 a l2 g, f_params (a_fn a) = see g -> fresh (a_fn a) = true ->
+     Forall (fun b => fresh (a_fn b) = true) l2 -> accepted (attempt_trace (registry_of l1) a) = true ->
+     exists e, aget (a_name a) (reg_table (a_kind a) (registry_of (l1 ++ a :: l2))) = Some e /\
+               e_fid e = f_id (a_fn a) /\ e_inject e = has_ls_g g /\
+               (exec_site e = Pool <-> a_thr a <> TNone) /\ (exec_site e = LoopTask <-> f_async (a_fn a) = true)) /\
   (* the whole product {feature, command} x {sync, async} x {none, above, below} x 7 first-parameter
      shapes, evaluated: thread + coroutine is the only refused shape *)
   (length shape_attempts = 84%nat /\ forallb shape_site_ok shape_attempts = true /\
@@ -49,7 +69,10 @@ Definition shapes_statement : Prop :=
 
 Theorem C14_shapes : shapes_statement.
 Proof.
-  split; [exact shape_general|]. split; [exact shapes_in_context|]. destruct site_iff_thread_product as [A B].
+  split; [exact shape_general|]. split; [exact shapes_in_context|].
+  split; [intro g; split; [apply see_faithful|split; [apply inject_decision|split;
+          [apply inject_only_if_asked_g|apply inject_iff_asked_g]]]|].
+  split; [exact shapes_in_context_g|]. destruct site_iff_thread_product as [A B].
   split; [exact A|]. split; [exact B|exact inject_iff_asked_product].
 Qed.
 
@@ -145,7 +168,7 @@ Definition did_change_name : name := Some s_did_change.
 Definition fn (i : N) (asy : bool) (p : fparams) : func := mkfunc i asy p false None.
 (* @server.feature("textDocument/didChange") def f(params): ... *)
 Definition cfg_refute : cfg :=
-  mkCfg (registry_of [mkattempt RFeature did_change_name ONone (fn 1 false (First false ANone)) TNone]) [] [].
+  mkCfg (registry_of [mkattempt RFeature did_change_name ONone (fn 1 false (First false ANone)) TNone]) [] [] [].
 (* initialize, then a didChange (with a content change) for a document that was never opened *)
 Definition evs_refute : list ev := [Recv (CInitialize 1 []); Recv (CDidChange 1 2%Z [4])].
 
@@ -165,6 +188,21 @@ Proof.
 Qed.
 Print Assumptions C14_refuted.
 
+(* F31: `def h(srv: Server, p: "Undefined")` under textDocument/didOpen: asks by annotation, the hints
+   cannot be computed, the registered callable does not bind the server; the literal promise (the
+   entry of the user's function has the server injected) fails on initialize + didOpen *)
+Definition g_refute : gsig := mkG (First false AServer) false.
+Definition cfg_refute2 : cfg :=
+  mkCfg (registry_of [mkattempt RFeature (Some s_did_open) ONone (fn 1 false (see g_refute)) TNone]) [] [] [1].
+
+Theorem C14_refuted_unresolvable_hints :
+  asks_server (g_first g_refute) = true /\ has_ls_g g_refute = false /\ sig_ok g_refute = false /\
+  let s := run cfg_refute2 [Recv (CInitialize 1 []); Recv (CDidOpen 1 1%Z 1)] in
+  map (fun h => (h_part h, h_fid h, h_inj h)) (hlog s) = [(PBuiltin, 0, false); (PBuiltin, 0, false); (PUser, 1, false)] /\
+  map x_inj (expect cfg_refute2 (CDidOpen 1 1%Z 1)) = [false; true] /\
+  inj_ok cfg_refute2 = false.
+Proof. vm_compute. repeat split; reflexivity. Qed.
+
 (* ------------------------------------------------------------------ non-vacuity *)
 (* a thread-decorated feature with an `ls` parameter under textDocument/didOpen that raises, an
    async feature annotated with the server class under textDocument/didChange, a sync command;
@@ -177,7 +215,7 @@ Definition cfg_ex : cfg :=
            [mkattempt RFeature did_open_name ONone (fn 1 false (First true ANone)) TAbove;
             mkattempt RFeature did_change_name ONone (fn 2 true (First false AServer)) TNone;
             mkattempt RCommand (Some [99]) ONone (fn 3 false (First false ANone)) TNone])
-        [1] [].
+        [1] [] [1; 2].
 Definition evs_ex : list ev :=
   [Recv (CInitialize 1 [1]); Recv (CDidOpen 1 1%Z 1); Recv (CDidChange 1 2%Z [2]); Recv (CExecCmd 2 [99] 7);
    Recv (CDidChange 1 3%Z [3]); JobStart 0; TaskStep 0; JobFinish 0; LoopCb 0; TaskStep 1; LoopCb 1; Recv (CShutdown 3)].
